@@ -133,12 +133,29 @@ def analyse_engine(ctx: Ctx, ci, f, cfg, in_loop):
         return obs
     head = L["head"]
     defs_all = local_defs(f)
+    step_nodes = [x for x, _ in in_loop]
+    inplace = set()
+    for x in step_nodes:
+        if not _targets(x.ast):
+            inplace |= {a.id for c in ast.walk(x.ast) if isinstance(c, ast.Call) for a in c.args if isinstance(a, ast.Name)}
+
+    def good_assign(b, nm):
+        """The assignment makes `nm` this generation's population: its value derives from the step's result, or it builds the
+        very object the step then evaluates in place (`pop = [Individual(..) for .. in ask()]; evaluate_population(pop)`)."""
+        if not (isinstance(b.ast, (ast.Assign, ast.AnnAssign)) and b.ast.value is not None):
+            return False
+        if _names(b.ast.value) & derived:
+            return True
+        if nm in inplace:
+            others = [x for x in body if x is not b and nm in _targets(x.ast)]
+            return any(cfg.find_path(b, x, avoid=lambda y: y in others) is not None for x in step_nodes if not _targets(x.ast) and nm in {a.id for c in ast.walk(x.ast) if isinstance(c, ast.Call) for a in c.args if isinstance(a, ast.Name)})
+        return False
     for n, call, pargs in consumers:
         for p in pargs:
             label = f"{norm(call.func)}({norm(p)})"
             if isinstance(p, ast.Name):
                 assigns = [b for b in body if p.id in _targets(b.ast)]
-                good = [b for b in assigns if isinstance(b.ast, (ast.Assign, ast.AnnAssign)) and b.ast.value is not None and (_names(b.ast.value) & derived)]
+                good = [b for b in assigns if good_assign(b, p.id)]
                 bad_assigns = [b for b in assigns if b not in good]
                 if not assigns:
                     obs.append(ctx.ob("R11.1", f, call, status=VIOLATION, detail=f"{ci.name}: parent argument `{p.id}` of {norm(call.func)} is loop-invariant: it is never reassigned inside the generation loop, so every generation is bred from the same population", witness=[f"results of the step: {sorted(results)}", f"names derived from them in the loop: {sorted(derived)}"], construct=label))
@@ -166,6 +183,33 @@ def analyse_engine(ctx: Ctx, ci, f, cfg, in_loop):
                 ok_entry = bool(outside) and all(any(is_self_attr(x, "current_population", selfn) for x in ast.walk(d)) for d in outside_r)
                 definite = bool(outside) and any(any(is_self_attr(x, None, selfn) and x.attr in ("_history", "history", "all_individuals", "_sprout_seed", "best_individual") for x in ast.walk(d)) for d in outside_r)
                 obs.append(ctx.ob("R11.2", f, call, status=OK if ok_entry else VIOLATION if definite else INCONCLUSIVE, detail=f"loop-entry value of `{p.id}` derives from self.current_population" if ok_entry else f"{ci.name}: the first generation of a metaepoch is not bred from the deme's current population (`{p.id}` = {[norm(d) for d in outside]})", construct=label + ":entry"))
+            elif isinstance(p, ast.Subscript) and isinstance(p.value, ast.Name) and norm(p.slice) == "-1" and any(isinstance(x, ast.Call) and isinstance(x.func, ast.Attribute) and x.func.attr == "append" and norm(x.func.value) == p.value.id for b in body for x in ast.walk(b.ast)):
+                # the generations are chained in a local list: parents = L[-1], and the step's result is appended to L
+                L_ = p.value.id
+                step_calls = {id(c2) for _, c2, _ in consumers}
+
+                def feeds(b):
+                    for x in ast.walk(b.ast):
+                        if isinstance(x, ast.Call) and isinstance(x.func, ast.Attribute) and x.func.attr == "append" and norm(x.func.value) == L_ and len(x.args) == 1:
+                            a0 = x.args[0]
+                            if any(id(y) in step_calls for y in ast.walk(a0)) or (_names(a0) & derived):
+                                return True
+                    return False
+
+                good = [b for b in body if feeds(b)]
+                other_mut = [b for b in body if b not in good and any((isinstance(x, ast.Call) and isinstance(x.func, ast.Attribute) and norm(x.func.value) == L_ and x.func.attr in ("append", "extend", "insert", "pop", "remove", "clear", "reverse", "sort", "__setitem__")) for x in ast.walk(b.ast)) or L_ in _targets(b.ast) or any(isinstance(x, ast.Subscript) and isinstance(x.ctx, (ast.Store, ast.Del)) and norm(x.value) == L_ for x in ast.walk(b.ast))]
+                leak = None if (n in good or not good) else cfg.find_path(n, head, avoid=lambda x: x in good)
+                if not good:
+                    obs.append(ctx.ob("R11.1", f, call, status=INCONCLUSIVE, detail=f"{ci.name}: cannot see the step's result being appended to `{L_}`", construct=label))
+                elif other_mut:
+                    obs.append(ctx.ob("R11.1", f, other_mut[0].stmt, status=INCONCLUSIVE, detail=f"{ci.name}: `{L_}` is also changed by `{other_mut[0].label[:60]}`", construct=label))
+                elif leak is not None:
+                    obs.append(ctx.ob("R11.1", f, call, status=VIOLATION, detail=f"{ci.name}: on some path around the loop the step's result is not appended to `{L_}`, so `{norm(p)}` is still the previous generation's parents", witness=[f"L{x.lineno}: {x.label[:70]}" for x in leak], construct=label))
+                else:
+                    obs.append(ctx.ob("R11.1", f, call, detail=f"{ci.name}: parents `{norm(p)}` are the last element of `{L_}`, to which every generation is appended", construct=label))
+                    outside = [d_ for d_ in defs_all.get(L_, [])]
+                    ok_entry = len(outside) == 1 and isinstance(outside[0], ast.List) and outside[0].elts and any(is_self_attr(x, "current_population", selfn) for x in ast.walk(outside[0].elts[-1]))
+                    obs.append(ctx.ob("R11.2", f, call, status=OK if ok_entry else INCONCLUSIVE, detail=f"loop-entry value of `{norm(p)}` is self.current_population" if ok_entry else f"{ci.name}: cannot tell what `{norm(p)}` is when the loop is entered ({[norm(d_)[:50] for d_ in outside]})", construct=label + ":entry"))
             elif _free_locals(p, selfn) & {t for b in body for t in _targets(b.ast)}:
                 # an expression over locals, some of which are assigned in the loop: the ones assigned there must be loop-carried
                 # from the step result on every back-edge path (names never assigned in the loop are constants of the metaepoch)
@@ -174,7 +218,10 @@ def analyse_engine(ctx: Ctx, ci, f, cfg, in_loop):
                     assigns = [b for b in body if nm in _targets(b.ast)]
                     if not assigns:
                         continue
-                    good = [b for b in assigns if isinstance(b.ast, (ast.Assign, ast.AnnAssign)) and b.ast.value is not None and (_names(b.ast.value) & derived)]
+                    loop_assigned = {t for b in body for t in _targets(b.ast)}
+                    if all(isinstance(b.ast, (ast.Assign, ast.AnnAssign)) and b.ast.value is not None and not any(isinstance(x, ast.Call) for x in ast.walk(b.ast.value)) and not (_free_locals(b.ast.value, selfn) & loop_assigned) for b in assigns):
+                        continue  # recomputed in every iteration from loop-invariant state: a constant of the metaepoch
+                    good = [b for b in assigns if good_assign(b, nm)]
                     if not good:
                         verdicts.append((VIOLATION, f"`{nm}` is reassigned in the loop but not from the step's result ({sorted(results)}): `{assigns[0].label}`"))
                         continue
@@ -219,6 +266,8 @@ def analyse_engine(ctx: Ctx, ci, f, cfg, in_loop):
             arg = n.ast.value.args[0] if n.ast.value.args else None
             if isinstance(arg, ast.Name):
                 gen_lists.add(arg.id)
+            elif isinstance(arg, ast.Subscript) and isinstance(arg.value, ast.Name) and isinstance(arg.slice, ast.Slice) and arg.slice.upper is None and arg.slice.step is None:
+                gen_lists.add(arg.value.id)  # L[1:]: the generations appended after the loop-entry element
     rec = []
     for b in body:
         a = b.ast
@@ -229,7 +278,9 @@ def analyse_engine(ctx: Ctx, ci, f, cfg, in_loop):
     for b, arg in rec:
         ok = isinstance(arg, ast.Name) and (arg.id in results or arg.id in derived)
         stale = False
-        if ok:
+        if not ok and arg is not None and any(any(y is c2 for y in ast.walk(arg)) for _, c2, _ in consumers if not (isinstance(c2.func, ast.Attribute) and c2.func.attr == "tell")):
+            ok = True  # the step call's own value is what is recorded
+        elif ok:
             # flow-sensitive: within the iteration the recorded name must have been (re)assigned from this generation's step
             # result before the record; a path loop-head -> record that passes no such assignment records an older generation
             fresh = [x for x in body if x in [sn for sn, _ in in_loop] and (arg.id in _targets(x.ast) or not _targets(x.ast))] + [
